@@ -1346,6 +1346,18 @@ pub fn plan(quick: bool) -> Vec<Space> {
         brks: all_b.clone(),
         stream: 0,
     });
+    if quick {
+        let l5 = vec![Node::Null];
+        v.push(Space {
+            name: "n=5",
+            what: "all trees with exactly 5 nodes whose leaves are null; reduced styles; no wrapper".into(),
+            trees: trees_exact(5, &l5),
+            opts: vec![Opts::reduced()],
+            wraps: vec![Wrap::None],
+            brks: all_b.clone(),
+            stream: 0,
+        });
+    }
     if !quick {
         let l5 = leaves_small(3);
         v.push(Space {
